@@ -499,6 +499,12 @@ def run(ctx):
                 if first is None:
                     first = {"case": [kind, c, s], "seed": seed, "diff": r["diffs"][0]}
             ctx.traces_validated += 0 if r.get("skipped") else 1
+            for o in (r.get("est") or []):
+                # `establishedB` on the two model endpoints after this replayed handshake, per substream "<sub>:<c->s><s->c>" (l1_corr.compare)
+                ctx.extra["established_probes"] = ctx.extra.get("established_probes", 0) + 1
+                ctx.extra["established_probe_substreams"] = ctx.extra.get("established_probe_substreams", 0) + len(o.split(" ")) - 1
+                if all(w.endswith(":11") for w in o.split(" ")[1:]):
+                    ctx.extra["established_probes_all_hold"] = ctx.extra.get("established_probes_all_hold", 0) + 1
             ctx.case(key=(kind, c, s), nontrivial=True, tag=kind,
                      sample={"kind": kind, "client": c, "server": s, "model_lines": r.get("lines")} if idx % 331 == 0 else None)
     ctx.exhaustive = not quick
